@@ -278,7 +278,7 @@ def _run_netlist(case, desc, names, tags):
 
 @st.composite
 def netlist_cases(draw, max_nodes):
-    desc = under_top(draw(netlists(max_nodes=max_nodes, n_regs=(0, 3), hierarchy=3, max_w=33)))
+    desc = under_top(draw(netlists(max_nodes=max_nodes, n_regs=(0, 3), hierarchy=3, max_w=33, reg_values=True, reg_d_any=True)))
     names = {}
     used = set()
     pool = PLAIN_POOL + RESERVED_POOL + ['w_' + p for p in PLAIN_POOL[:5]] + ['i_' + p for p in PLAIN_POOL[:5]] + \
